@@ -4,8 +4,8 @@
 # prints per check whether a VIOLATION was reported.  For development, not a check.
 P=$1; TIER=$2; shift 2
 N=$(basename $(dirname $P))
-D=/tmp/mt/$N
-rm -rf $D; mkdir -p /tmp/mt
+D=${MT_DIR:-/tmp/mt}/$N
+rm -rf $D; mkdir -p ${MT_DIR:-/tmp/mt}
 git -C /repo worktree add -q --detach $D HEAD || exit 2
 if ! git -C $D apply $P; then echo "$N: PATCH DOES NOT APPLY"; git -C /repo worktree remove --force $D; exit 2; fi
 for c in "$@"; do
